@@ -148,8 +148,11 @@ theorem collectWatches_inv {H : Heap} {L : Limits} (ws : List WatchIn) (c : Cach
       · rename_i m hm
         simp [*] at hf
       · rename_i hm
-        simp only [*] at hf
-        exact ih _ _ (happ hm) hf
+        split
+        · simp only [*] at hf
+          exact ih _ _ ht hf
+        · simp only [*] at hf
+          exact ih _ _ (happ hm) hf
     · split
       · rename_i m hm
         simp only [*] at hf
